@@ -15,6 +15,17 @@ def molgen_wf(m):
             and gcomps(m.graph.val) == 1 and gedges(m.graph.val) == gnodes(m.graph.val) - 1 and gnodes(m.graph.val) >= 1)
 ''')
 
+# invariant of a parsed token (established by SmilesToken.__init__, which is string surgery outside the engine's reach: assumed here,
+# checked on every parsed token by the bounded C02 driver): its descriptors are distinct notation-owned objects, each bound to an
+# atom of the token's fragment molecule
+specfn('''
+def token_wf(t):
+    return (distinct_elems(t.bond_descriptors)
+            and forall(lambda k: implies(0 <= k and k < len(t.bond_descriptors),
+                                         not is_none(t.bond_descriptors[k].atom_bonding_to) and 0 <= val(t.bond_descriptors[k].atom_bonding_to)
+                                         and val(t.bond_descriptors[k].atom_bonding_to) < natoms(smiles_mol(frag_text(t))))))
+''')
+
 specfn('''
 def src_index(r, j):
     return ite(r < j, r, r + 1)
@@ -56,7 +67,7 @@ _ATTACH_ENS = {
     "natoms(self._mol) == old(natoms(self._mol)) + old(natoms(other._mol)) and mass(self._mol) == old(mass(self._mol)) + old(mass(other._mol))": "atoms-and-mass-add-up",
     "gnodes(self.graph.val) == old(gnodes(self.graph.val)) + old(gnodes(other.graph.val))": "residues-add-up",
     "gcomps(self.graph.val) == 1 and gedges(self.graph.val) == gnodes(self.graph.val) - 1": "residue-graph-stays-a-tree",
-    "unchanged('BondDescriptor.atom_bonding_to') and unchanged('BondDescriptor.node_idx') and unchanged('obj.owner')": "old-descriptors-untouched",
+    "unchanged('BondDescriptor.atom_bonding_to') and unchanged('BondDescriptor.node_idx') and unchanged('obj.owner') and unchanged('BondDescriptor.weight')": "old-descriptors-untouched",
     # the representation invariant of the result, piece by piece (kept-before / kept-after / copied segments), then as a whole
     "forall(lambda k: implies(0 <= k and k < old(len(self.bond_descriptors)) - 1, desc_wf(self, self.bond_descriptors[k]) and preexisting(self.bond_descriptors[k])))": "wf-kept",
     "forall(lambda k: implies(old(len(self.bond_descriptors)) - 1 <= k and k < len(self.bond_descriptors), desc_wf(self, self.bond_descriptors[k]) and fresh(self.bond_descriptors[k])))": "wf-copied",
@@ -65,6 +76,12 @@ _ATTACH_ENS = {
     "forall(lambda k: implies(0 <= k and k < len(self.bond_descriptors), desc_wf(self, self.bond_descriptors[k])))": "wf-all",
     "distinct_elems(self.bond_descriptors)": "all-distinct",
     "molgen_wf(self)": "representation-invariant",
+    # weights of the open descriptors stay non-negative (precondition of every weighted pick)
+    "implies(old(weights_ok(self.bond_descriptors)) and old(weights_ok(other.bond_descriptors)), weights_ok(self.bond_descriptors))": "weights-stay-non-negative",
+    # frame, as a clause (a caller only knows a callee's ensures): nothing but the growing molecule's own parts changes
+    "unchanged_except('MolGen._mol', self) and unchanged_except('MolGen.graph', self) and unchanged('MolGen.bond_descriptors') and unchanged('NxGraph.val') "
+    "and lists_unchanged_except(self.bond_descriptors) and unchanged('BondDescriptor.transitions') and unchanged('BondDescriptor.bond_type') "
+    "and unchanged('BondDescriptor.descriptor') and unchanged('BondDescriptor.descriptor_id')": "only-the-growing-molecule-changes",
     # C10: the attached fragment is only read
     "len(other.bond_descriptors) == old(len(other.bond_descriptors)) and forall(lambda k: implies(0 <= k and k < len(other.bond_descriptors), other.bond_descriptors[k] is old(other.bond_descriptors[k])))": "fragment-list-untouched",
 }
@@ -84,14 +101,16 @@ contract("mol_gen.MolGen.attach_other",
                       "wf-copied": ["others-copied-shifted", "atoms-and-mass-add-up", "residues-add-up", "two-descriptors-consumed"],
                       "wf-all": ["two-descriptors-consumed", "wf-kept", "wf-copied"],
                       "all-distinct": ["two-descriptors-consumed", "kept-before", "kept-after", "wf-kept", "wf-copied", "copies-distinct"],
-                      "representation-invariant": ["owners", "wf-all", "all-distinct", "residue-graph-stays-a-tree", "residues-add-up"]},
+                      "representation-invariant": ["owners", "wf-all", "all-distinct", "residue-graph-stays-a-tree", "residues-add-up"],
+                      "weights-stay-non-negative": ["two-descriptors-consumed", "kept-before", "kept-after", "others-copied-shifted", "old-descriptors-untouched"]},
          clause_props={"molecule-is-combination-plus-one-bond": ["C05"], "atoms-and-mass-add-up": ["C05"], "residues-add-up": ["C05"],
                        "residue-graph-stays-a-tree": ["C05"], "one-bond": ["C04", "C05"], "representation-invariant": ["C04", "C05"],
-                       "fragment-list-untouched": ["C10"], "old-descriptors-untouched": ["C10"], "frame": ["C10"], "frame-owner": ["C10"],
+                       "fragment-list-untouched": ["C10"], "old-descriptors-untouched": ["C10"], "only-the-growing-molecule-changes": ["C10"], "frame": ["C10"], "frame-owner": ["C10"],
                        "cover": ["C04", "C05", "C10"]},
-         modifies=["MolGen._mol", "MolGen.graph", "list", "NxGraph.val", "EditableMol.val",
+         # object-granular: only these cells of pre-existing objects may change (everything else written is freshly allocated)
+         modifies=["MolGen._mol@self", "MolGen.graph@self", "list@self.bond_descriptors",
                    "ghost.bonds", "ghost.bond_a", "ghost.bond_b", "ghost.bond_t"],
-         writes_owner="GEN",
+         writes_owner="GEN", opaque_final_heap=True,
          # the conformer arithmetic (alignment of the fragment in space) is abstracted: it assigns only these locals and calls only
          # conformer accessors and numpy; coordinates are not part of any contract
          abstract=[dict(**{"from": "self_bond_point = self._mol.GetConformer().GetAtomPosition(self.bond_descriptors[self_bond_idx].atom_bonding_to)"},
@@ -113,3 +132,66 @@ contract("mol_gen.MolGen.attach_other",
                   "other_bond_descriptors[k].node_idx == at_loop_entry(other_bond_descriptors[k].node_idx)))",
                   "loop_unchanged_outside('BondDescriptor.atom_bonding_to', ident(other_bond_descriptors[0]), ident(other_bond_descriptors[0]) + len(other_bond_descriptors))",
                   "loop_unchanged_outside('BondDescriptor.node_idx', ident(other_bond_descriptors[0]), ident(other_bond_descriptors[0]) + len(other_bond_descriptors))"])})
+
+
+# ---- MolGen.__init__: a fresh, generator-owned copy of one token (C04 / C05 / C10) ---------------------------------------------------
+from pyvc.sorts import STR
+from pyvc.specs import ufunc as _ufunc
+_ufunc("frag_text", [Ref("SmilesToken")], STR)          # SmilesToken.generate_smiles_fragment() as a function of the token
+
+contract("token.SmilesToken.generate_smiles_fragment", trusted=True,
+         why_trusted="str.replace chains over the element list (undecided in both solvers); what is assumed: the text is a function of the token; the bounded C05 driver "
+                     "checks that it parses to the token's own atoms",
+         props=["C05"], params=dict(self=Ref("SmilesToken")), returns=STR, ensures=["result == frag_text(self)"], modifies=[], allocates=False)
+contract("token.SmilesToken.generate_string", trusted=True,
+         why_trusted="string assembly over the element list; only used for a node label here (C01 is its bounded check)",
+         props=["C01"], params=dict(self=Ref("SmilesToken"), extension=BOOL), returns=STR, ensures=[], modifies=[], allocates=False)
+contract("token.SmilesToken.residues", is_property=True, props=["C05"],
+         params=dict(self=Ref("SmilesToken")), returns=List(Ref("SmilesToken")),
+         ensures=["len(result) == 1 and result[0] is self and fresh(result)"], labels={"len(result) == 1 and result[0] is self and fresh(result)": "a-token-is-one-residue"},
+         modifies=[])
+
+_K = "0 <= k and k < len(self.bond_descriptors)"
+_INIT = {
+    "token_gen_ok(token)": "refuses-a-token-that-is-not-generable",
+    "len(self.bond_descriptors) == len(token.bond_descriptors) and fresh(self.bond_descriptors) and owner(self.bond_descriptors) == GEN": "one-open-descriptor-per-written-descriptor-in-a-fresh-list",
+    f"forall(lambda k: implies({_K}, fresh(self.bond_descriptors[k]) and owner(self.bond_descriptors[k]) == GEN))": "descriptors-are-fresh-generator-owned-copies",
+    f"forall(lambda k: implies({_K}, self.bond_descriptors[k].descriptor == token.bond_descriptors[k].descriptor and "
+    "self.bond_descriptors[k].descriptor_id == token.bond_descriptors[k].descriptor_id and self.bond_descriptors[k].bond_type == token.bond_descriptors[k].bond_type and "
+    "self.bond_descriptors[k].weight == token.bond_descriptors[k].weight and self.bond_descriptors[k].transitions is token.bond_descriptors[k].transitions and "
+    "self.bond_descriptors[k].atom_bonding_to == token.bond_descriptors[k].atom_bonding_to))": "copies-carry-the-written-symbol-id-order-weight-and-atom",
+    f"forall(lambda k: implies({_K}, self.bond_descriptors[k].node_idx == 0))": "all-descriptors-belong-to-the-single-residue",
+    "self._mol == smiles_mol(frag_text(token))": "molecule-is-the-token-fragment",
+    "gnodes(self.graph.val) == 1 and gedges(self.graph.val) == 0 and gcomps(self.graph.val) == 1 and fresh(self.graph) and owner(self.graph) == GEN": "residue-graph-is-one-node",
+    "distinct_elems(self.bond_descriptors)": "copies-distinct",
+    "unchanged('BondDescriptor.node_idx') and unchanged('BondDescriptor.atom_bonding_to') and unchanged('BondDescriptor.weight') and unchanged('BondDescriptor.transitions') "
+    "and lists_unchanged_except() and unchanged('obj.owner') and unchanged('SmilesToken.bond_descriptors')": "the-token-is-only-read",
+    "owner(self) == GEN": "generator-owned",
+    "unchanged_except('MolGen._mol', self) and unchanged_except('MolGen.graph', self) and unchanged_except('MolGen.bond_descriptors', self) and unchanged('NxGraph.val')": "no-other-molecule-changes",
+    "forall(lambda k: implies(0 <= k and k < len(self.bond_descriptors), desc_wf(self, self.bond_descriptors[k])))": "wf-all",
+    "molgen_wf(self)": "representation-invariant",
+}
+contract("mol_gen.MolGen.__init__", props=["C05", "C04", "C10"],
+         params=dict(self=Ref("MolGen"), token=Ref("SmilesToken")), returns=None,
+         requires=["token_wf(token)", "owner(self) == GEN"],
+         raises={"RuntimeError": "not token_gen_ok(token)"},
+         raises_may={"ValueError": "True"},
+         ensures=list(_INIT), labels=_INIT,
+         from_lemmas={"wf-all": ["one-open-descriptor-per-written-descriptor-in-a-fresh-list", "descriptors-are-fresh-generator-owned-copies",
+                                 "copies-carry-the-written-symbol-id-order-weight-and-atom", "all-descriptors-belong-to-the-single-residue",
+                                 "molecule-is-the-token-fragment", "residue-graph-is-one-node", "the-token-is-only-read"],
+                      "representation-invariant": ["one-open-descriptor-per-written-descriptor-in-a-fresh-list", "wf-all",
+                                                   "residue-graph-is-one-node", "copies-distinct", "generator-owned"]},
+         clause_props={"the-token-is-only-read": ["C10"], "no-other-molecule-changes": ["C10"], "frame": ["C10"], "frame-owner": ["C10"], "descriptors-are-fresh-generator-owned-copies": ["C10", "C04", "C05"],
+                       "cover": ["C05", "C04", "C10"]},
+         modifies=["MolGen.bond_descriptors@self", "MolGen.graph@self", "MolGen._mol@self"],
+         writes_owner="GEN", opaque_final_heap=True,
+         abstract=[dict(**{"from": "atom_serial = 1"}, until=None,
+                        havoc=["atom_serial", "elem_count", "atom", "monomer_info", "atom_name"],
+                        calls=["GetAtoms", "AtomPDBResidueInfo", "SetMonomerInfo", "GetAtomicNum", "min", "GetPDBResidueInfo", "SetResidueName", "SetResidueNumber",
+                               "SetIsHeteroAtom", "SetOccupancy", "SetTempFactor", "GetSerialNumber", "GetSymbol", "SetName", "SetSerialNumber", "ValueError"],
+                        raises=["ValueError"],
+                        note="PDB residue labelling of the atoms (names, serial numbers): writes RDKit atom monomer info only")],
+         loops={1: dict(anchor="bd in self.bond_descriptors", modifies=["BondDescriptor.node_idx"], allocates=False,
+                        inv=["forall(lambda k: implies(0 <= k and k < _i1, self.bond_descriptors[k].node_idx == 0))",
+                             "loop_unchanged_outside('BondDescriptor.node_idx', ident(self.bond_descriptors[0]), ident(self.bond_descriptors[0]) + len(self.bond_descriptors))"])})
